@@ -1405,7 +1405,7 @@ func (g *gen) foreignClause(e *env, ct *Contract, c *Clause) (t string, ok bool)
 	}
 	defer func() {
 		if r := recover(); r != nil {
-			if se, isSE := r.(specErr); isSE && strings.Contains(se.msg, "unknown identifier") {
+			if se, isSE := r.(specErr); isSE && (strings.Contains(se.msg, "unknown identifier") || strings.Contains(se.msg, "unknown function")) {
 				g.warn("clause %q of %s not expressible in unit %s: skipped", c.Text, ct.FullKey, g.unit.Name)
 				t, ok = "", false
 				return
